@@ -130,6 +130,8 @@ def run(chk, repo, tier):
         last = fi.node.body[-1]
         chk.ob('C01.R2', where(repo, fi, last), f'{fi.name}: an unknown mode raises instead of returning silently',
                isinstance(last, ast.Raise), norm(last)[:60], key=f'C01.R2|{q}|else-raises')
+    from . import support
+    support.block_rules(chk, repo, 'C01.R4', ('qr',))
     chk.floor('C01.R2', n2, 60)
     chk.floor('C01.R3', n3, 20)
     chk.assume('factorisation contract Q@R == M of bond_ops.qr (C11 decides its structural part)')
